@@ -214,7 +214,13 @@ CallOutTokens == Call(Pre, ResolveCall(last.c)).ep.out
 \* MAX_HEADER_LIST_SIZE (known finding sent_header_list_unchecked); the receiving side refuses both.
 P_C01_DeliveredSendsAccepted ==
   (Pair /\ HasSrc /\ last.a = "dlv" /\ AllClean /\ \A x \in Roles : src[1][x].conn # "CLOSED")
-     => (ROk \/ last.p.r.c \in {"InvalidBodyLengthError", "DenialOfServiceError"})
+     => \/ ROk
+        \/ last.p.r.c \in {"InvalidBodyLengthError", "DenialOfServiceError"}
+        \* known finding sent_window_overflow_unchecked: update_settings announces an INITIAL_WINDOW_SIZE that, added to a stream
+        \* window the same endpoint enlarged with increment_flow_control_window, exceeds 2^31-1 at the peer
+        \/ /\ last.p.r.c = "FlowControlError"
+           /\ \E i \in 1..Len(InFrames) : InFrames[i].t = "SET" /\ ~InFrames[i].ack
+                                            /\ \E j \in 1..Len(InFrames[i].s) : InFrames[i].s[j][1] = 4
 \* C13: the HPACK encoder context becomes unpredictable only through a marked failed-send deviation
 P_C13_CleanSendsDecode == \A x \in Roles : eps[x].hd => "failed_send_partial_state" \in eps[x].dev
 \* C02: no emitted DATA frame is larger than the peer's MAX_FRAME_SIZE in force when it was sent
@@ -255,6 +261,16 @@ P_C04_RemoteWindowIsAdvertised ==
 P_C05_AutoUpdateWithinBounds ==
   \A x \in Roles : /\ eps[x].iw.cur <= eps[x].iw.max /\ eps[x].iw.bp >= 0
                    /\ \A sid \in DOMAIN eps[x].streams : LET w == eps[x].streams[sid].iw IN w.cur <= w.max /\ w.bp >= 0
+\* C05: no stall -- once the application has acknowledged every flow-controlled octet it received on a stream that can still
+\* receive, the window advertised for that stream is positive whenever its maximum is (known finding
+\* settings_shrink_stalls_window: a local INITIAL_WINDOW_SIZE decrease can leave acknowledged octets uncredited at window 0)
+CanReceive(s) == s.st \in {"OPEN", "HALF_CLOSED_LOCAL"}
+P_C05_NoStall ==
+  \A x \in Roles : LET ep == eps[x] IN
+     (ep.conn # "CLOSED" /\ "settings_shrink_stalls_window" \notin ep.dev) =>
+        /\ \A sid \in DOMAIN ep.streams : LET s == ep.streams[sid] IN
+           (CanReceive(s) /\ s.un = 0 /\ s.iw.max > 0) => s.iw.cur > 0
+        /\ (ep.un = 0 /\ ep.iw.max > 0) => ep.iw.cur > 0
 \* C06: RFC 7540 5.1 states only, CLOSED is final, id watermarks never move back
 RfcStates == {"IDLE", "RESERVED_LOCAL", "RESERVED_REMOTE", "OPEN", "HALF_CLOSED_LOCAL", "HALF_CLOSED_REMOTE", "CLOSED"}
 P_C06_StreamStatesAreRfcStates ==
